@@ -957,6 +957,14 @@ def _m_caller(self, method_name, what='value', changed=None, callback=None, rout
     return caller
 
 
+def _is_m_caller(fn):
+    """
+    Whether fn is the internal caller of a dependent method (nothing is
+    asked of a callback of the user: it may answer anything to getattr).
+    """
+    return isinstance(fn, partial) and fn.func in (_sync_caller, _async_caller)
+
+
 def _add_doc(obj, docstring):
     """Add a docstring to a namedtuple."""
     obj.__doc__ = docstring
@@ -1758,10 +1766,11 @@ class Parameter(_ParameterBase):
                 # running event loop the executor runs the task right away
                 try:
                     async_executor(partial(obj.param._async_ref, name, awaitable, ref))
-                except Exception:
+                except BaseException:
                     # ... and what it raises (a result that is not valid for
-                    # the parameter) comes out of this assignment: the
-                    # reference is not installed, the previous link is back
+                    # the parameter, an interrupt) comes out of this
+                    # assignment: the reference is not installed, the
+                    # previous link is back
                     if obj._param__private.refs.get(name, Undefined) is ref:
                         obj.param._update_ref(name, previous)
                     raise
@@ -1793,12 +1802,11 @@ class Parameter(_ParameterBase):
             elif not obj._param__private.initialized:
                 _old = self._shown(obj)
                 obj._param__private.values[self.name] = val
-            elif (obj._param__private.unlocked and self.name in obj._param__private.unlocked_params
-                  and self.owner is not obj):
+            elif obj._param__private.unlocked and self.name in obj._param__private.unlocked_params:
                 # inside edit_constant(obj), one of the constants it found
-                # (not one that was made constant since: the Parameter
-                # objects of the instance itself show constant=False inside
-                # the block unless they were locked again by hand)
+                # (not one that was made constant since), whatever its flag
+                # shows at the moment: code that switches flags off and on
+                # itself must not lock the object in the middle of the block
                 _old = self._shown(obj)
                 obj._param__private.values[self.name] = val
             else:
@@ -1895,8 +1903,7 @@ class Parameter(_ParameterBase):
         if self.readonly:
             raise TypeError("Read-only parameter '%s' cannot be modified" % self.name)
         private = obj._param__private
-        if self.constant and private.initialized and not (
-                private.unlocked and self.name in private.unlocked_params and self.owner is not obj):
+        if self.constant and private.initialized and not (private.unlocked and self.name in private.unlocked_params):
             # A reference would keep rebinding the constant whenever its
             # source changes, whatever it resolves to at the moment
             if ref is not None or val is not self._shown(obj):
@@ -3258,7 +3265,7 @@ class Parameters:
             event_type = 'changed' if watcher.onlychanged else 'set'
         typed = Event(what=event.what, name=event.name, obj=event.obj, cls=event.cls,
                       old=event.old, new=event.new, type=event_type)
-        if getattr(event, 'reached', None) and hasattr(watcher.fn, '_watcher_name'):
+        if getattr(event, 'reached', None) and _is_m_caller(watcher.fn):
             typed = _QueuedEvent.of(typed, event.reached, entered=event.entered)
         return typed
 
@@ -3285,7 +3292,7 @@ class Parameters:
     def _call_watcher(self_, watcher, event):
         """Invoke the given watcher appropriately given an Event object."""
         # (an internal watcher may decline an event outright)
-        wants = getattr(watcher.fn, '_wants', None)
+        wants = getattr(watcher.fn, '_wants', None) if isinstance(watcher.fn, partial) else None
         if wants is not None and not wants(event):
             return
         if self_._TRIGGER:
@@ -3294,7 +3301,7 @@ class Parameters:
             return
 
         if self_._BATCH_WATCH:
-            keywords = getattr(watcher.fn, 'keywords', None) if hasattr(watcher.fn, '_watcher_name') else None
+            keywords = watcher.fn.keywords if _is_m_caller(watcher.fn) else None
             reached = dict(getattr(event, 'reached', None) or {})
             entered = dict(getattr(event, 'entered', None) or {})
             if keywords and keywords.get('changed') is not None:
@@ -3380,7 +3387,7 @@ class Parameters:
                     # (a watcher that took the place of a waiting one, see
                     # _update_deps, also gets what qualified for that one)
                     mine, lineage = qualified.get(id(watcher)), watcher
-                    while getattr(lineage.fn, '_predecessor', None) is not None:
+                    while _is_m_caller(lineage.fn) and getattr(lineage.fn, '_predecessor', None) is not None:
                         previous, lineage.fn._predecessor = lineage.fn._predecessor, None
                         lineage = previous
                         keys = qualified.get(id(lineage))
